@@ -178,7 +178,15 @@ func (v *Val) ToReflect(rv reflect.Value, t *TyDef) (err error) {
 		}
 		return v.ToReflect(rv, t.Elem)
 	case "time":
-		rv.Set(reflect.ValueOf(time.Unix(v.Sec, v.Nsec).UTC()))
+		tm := time.Unix(v.Sec, v.Nsec).UTC()
+		// the same instant in other locations (the encoding is of the instant, not of the wall clock)
+		switch (v.Sec ^ v.Nsec) & 3 {
+		case 1:
+			tm = tm.In(time.FixedZone("east", int((v.Sec&15)-3)*3600+1800))
+		case 2:
+			tm = tm.In(time.FixedZone("west", -int(v.Nsec&7)*3600))
+		}
+		rv.Set(reflect.ValueOf(tm))
 		return nil
 	case "ext":
 		// null.X{payload, Valid}: field 0 is the embedded sql.NullX whose field 0 is the payload
